@@ -26,6 +26,9 @@ pub fn gen_sources(tier: &str, seed: u64) -> Vec<String> {
         // a <slot> binds its own slot: values for its own attributes (name, value attributes, data:, mark:)
         "<c><slot name=\"cell-{{ n2 }}\" slot:row slot:pos=\"n2\" value=\"{{ row }}\" data:d=\"{{ n2 }}\" mark:m=\"{{ row.a }}\"/>{{ row }}{{ n2 }}</c>".into(),
         "<v wx:for=\"{{ l }}\" wx:for-item=\"row\"><c><slot slot:row=\"r2\" v=\"{{ row }}{{ r2 }}\"/></c></v>".into(),
+        // slot: values bound on a <block>, with deeper scopes below
+        "<c><block slot:a>{{ a }}<v wx:for=\"{{ l }}\">{{ item }}{{ index }}{{ a }}</v></block><block slot:b=\"bb\" wx:if=\"{{ c }}\">{{ bb }}{{ b }}</block></c>".into(),
+        "<c><block wx:if=\"{{ a }}\"><v slot:p>{{ p }}</v></block><block wx:else><v slot:q>{{ q }}{{ p }}</v><c><w slot:x>{{ q }}{{ x }}</w></c></block></c>".into(),
         // a wx:for over a static string, a wx:if group whose conditions are all static: still dynamic subtrees
         "<v wx:for=\"abc\">{{ a }}{{ item }}</v><v x=\"{{ a }}\"/>".into(),
         "<v wx:if=\"on\">{{ b }}</v><v wx:else>{{ c }}</v><w y=\"{{ b }}{{ c }}\"/>".into(),
